@@ -51,6 +51,9 @@ def mesh_configs(quick):
     c += [dict(kind="Lhole", mel=0.9, smooth=0)]
     # contact pads that reach well into the film (centres of interior edges lie inside the terminal polygons)
     c += [dict(kind="bar_thick", mel=0.5, smooth=0)]
+    # a film stated in METRES (coordinates ~1e-6) whose hole outline is sampled every 0.2 nm: every vertex of the outline is a
+    # boundary site, the mesh tiles film minus hole
+    c += [dict(kind="dense_hole", mel=1.2e-6, smooth=0, units="m", scale=1e-6, light=True)]
     # geometry away from the origin; meshes made without refinement (outline point density only), with min_points only
     c += [dict(kind="bar_hole", mel=0.0, smooth=0, offset=(20.0, 12.0)), dict(kind="ring", mel=1.0, smooth=2, offset=(0.4, -0.3)),
           dict(kind="bar", mel=None, smooth=0, min_points=150, offset=(-7.0, 3.0))]
@@ -120,8 +123,13 @@ def check_mesh(ctx, cfg, with_model=True):
         ctx.count("meshes_of_off_centre_geometry")
         if not cfg["mel"]:
             ctx.count("meshes_without_refinement")
+    elif cfg.get("units"):
+        dev = zoo.make_device(cfg["kind"], ctx.rng, max_edge_length=cfg["mel"] / cfg["scale"], smooth=cfg["smooth"], length_units=cfg["units"], scale=cfg["scale"])
+        ctx.count("meshes_of_devices_stated_in_" + cfg["units"])
     else:
         dev = zoo.make_device(cfg["kind"], ctx.rng, max_edge_length=cfg["mel"], smooth=cfg["smooth"], xi=cfg.get("xi", 0.5), min_points=cfg.get("min_points"))
+    if cfg.get("light"):
+        return check_outline_fidelity(ctx, cfg, dev)
     first = check_device_mesh(ctx, cfg, dev, with_model=with_model)
     # ... and for the device read back from a file (the mesh is restored from stored arrays, not re-derived)
     import h5py
@@ -151,6 +159,48 @@ def check_mesh(ctx, cfg, with_model=True):
         first = first or dict(key="smooth-moves-the-mesh-it-was-called-on", what="smooth mutates its input", **rp)
     else:
         first = first or check_device_mesh(ctx, dict(cfg, moved="after-smooth-was-called-on-its-mesh"), dev, with_model=False)
+    return first
+
+
+def check_outline_fidelity(ctx, cfg, dev):
+    """the global part of the relations on a mesh too large for the per-cell checks: triangles and cells tile film minus holes,
+    every vertex of the film / hole outlines is a boundary site, every boundary site lies on an outline"""
+    from scipy.spatial import cKDTree
+
+    mesh, xi = dev.mesh, dev.layer.coherence_length
+    P, T = mesh.sites * xi, mesh.elements
+    tag = dict(kind=cfg["kind"], units=cfg.get("units"), sites=len(P))
+    first = None
+
+    def fail(key, what, **extra):
+        nonlocal first
+        rp = dict(tag, **extra)
+        ctx.fail(key, what, rp)
+        if first is None:
+            first = dict(key=key, what=what, **rp)
+
+    domain = SPolygon(dev.film.points, holes=[h.points for h in dev.holes])
+    size = float(np.sqrt(domain.area))
+    ta = float(np.abs(tri_areas(P, T)).sum())
+    ca = float(np.sum(mesh.areas) * xi**2)
+    ctx.case((cfg["kind"], "outline-fidelity", len(P)), nontrivial=True)
+    ctx.count("large_meshes_checked_globally")
+    for nm_, a_ in (("triangles", ta), ("cells", ca)):
+        rel = abs(a_ - domain.area) / domain.area
+        ctx.tol(f"tiling area of {nm_} vs film minus holes (large mesh, relative)", rel, 1e-9)
+        if rel > 1e-9:
+            fail("tiling-area", f"{nm_} cover area {a_:.12g}, film minus holes has {domain.area:.12g} (relative difference {rel:.2e})", which=nm_)
+    bsites = P[np.asarray(mesh.boundary_indices)]
+    tree = cKDTree(bsites)
+    for poly in [dev.film] + list(dev.holes):
+        d_, _ = tree.query(np.asarray(poly.points))
+        missing = int((d_ > 1e-9 * size).sum())
+        if missing:
+            fail("outline-vertex-not-a-boundary-site", f"{missing} of {len(poly.points)} vertices of the outline of {poly.name!r} are not boundary sites of the mesh (farthest: {d_.max() / size:.2e} of the device size)", polygon=poly.name, missing=missing)
+    rings = [domain.exterior] + list(domain.interiors)
+    off = [i for i, q in enumerate(bsites) if min(r_.distance(Point(q)) for r_ in rings) > 1e-9 * size]
+    if off:
+        fail("boundary-site-off-outline", f"{len(off)} boundary sites do not lie on the film / hole outlines", count=len(off))
     return first
 
 
